@@ -65,6 +65,8 @@ def run(ctx):
         n = ctx.rng.choice([1, 3, 16])
         wscale = 10.0 ** ctx.rng.choice([-8, -3, 0, 0, 2, 8] if width == "float64" else [-3, 0, 0, 2, 4])
         off = ctx.rng.choice([0.0, 0.0, 1.0, -1e3, 1e8 if width == "float64" else 1e3]) * (1 if wscale >= 1e-3 else 0)
+        if eps_m * abs(off) / wscale > 1e-4:
+            off = 0.0        # an interval of width w at offset c holds about w / (eps |c|) numbers of that width: below ~1e4 nothing can be checked
         lower = np.asarray([off + wscale * ctx.rng.uniform(-1, 0) for _ in range(d)])
         upper = lower + wscale * np.asarray([ctx.rng.uniform(0.5, 2.0) for _ in range(d)])
         w = upper - lower
